@@ -92,7 +92,8 @@ def _one(args):
     from . import solve as SV
     try:
         spec = load_spec(spec_path, prop)
-        t = [x for x in spec.targets if x.ref == target_ref][0]
+        t = spec.targets[target_ref] if isinstance(target_ref, int) else [x for x in spec.targets if x.ref == target_ref][0]
+        target_ref = t.ref
         e = Engine(spec, t, mutate=make_mutator(desc))
         e.run()
         obls = [o for o in e.obls if o.kind != "canary" and not o.kind.startswith("cover.")]
@@ -118,6 +119,7 @@ def run_mutants(spec, engines, tier, budget, seed):
     from .run import spec_path
     jobs = []
     srcs = {}
+    tindex = {}
     for e in engines:
         t = e.target
         per_target_cap = t.quick_mutants if tier == "quick" else 10 ** 6
@@ -133,7 +135,8 @@ def run_mutants(spec, engines, tier, budget, seed):
             ss = [ss[int(i * stride)] for i in range(per_target_cap)]
         for mid, desc in ss:
             srcs[(t.ref, mid)] = e.lines[desc[1] - 1].strip() if 0 < desc[1] <= len(e.lines) else ""
-            jobs.append((spec_path(spec.prop), spec.prop, t.ref, mid, desc, min(budget, 5)))
+            jobs.append((spec_path(spec.prop), spec.prop, spec.targets.index(t), mid, desc, min(budget, 5)))
+            tindex[(t.ref, mid)] = spec.targets.index(t)
     if not jobs:
         return None
     ctx = mp.get_context("spawn")   # not fork: the parent has used threads (solver pool)
